@@ -455,15 +455,20 @@ pub fn run_history(rng: &mut Rng, mix: Mix) -> Outcome {
         let slack = rng.range(0, 300);
         let goal = mix.near_limit - slack;
         let mut i = 0u32;
+        let mut cur_len = m.encode_literal().len();
         loop {
-            let r = if mix.near_limit > 10000 && i % 4 != 0 {
+            // (near_limit 70001: only small records with a shared owner, so that the packet is far smaller on the
+            // wire than once decompressed)
+            let r = if mix.near_limit > 10000 && mix.near_limit != 70001 && i % 4 != 0 {
                 Record { name: qn.clone(), rtype: T_TXT, class: 1, ttl: i, rdata: RData::Opaque(vec![b't'; 600]) }
             } else {
                 Record { name: qn.clone(), rtype: T_A, class: 1, ttl: i, rdata: RData::A([10, 0, (i >> 8) as u8, i as u8]) }
             };
-            if m.encode_literal().len() + r.wire_literal().len() > goal {
+            let l = r.wire_literal().len();
+            if cur_len + l > goal {
                 break;
             }
+            cur_len += l;
             m.sec[(i % 3) as usize].push(r);
             i += 1;
         }
@@ -1280,6 +1285,95 @@ pub fn header_alias_case(ctx: &mut Ctx, want: Prop, rng: &mut Rng) {
                 ctx.violation(want.id(), format!("header-alias|{}", name), format!("{} on a packet whose names alias header bytes: panic {}", name, p.msg), &v.bytes);
             }
         }
+    }
+}
+
+/// A name may also be written through a pointer into the TTL or the address bytes of an EARLIER record (four
+/// bytes that happen to read as a name, e.g. 01 'x' 00 09 = "x."). `set_rr_ttl` / `set_rr_ip` on that record
+/// then rewrite the later name as well: same family as the header aliasing above, recorded as a known finding
+/// under `rdata-alias|set_rr_ttl` and `rdata-alias|set_rr_ip`.
+pub fn rdata_alias_case(ctx: &mut Ctx, want: Prop, rng: &mut Rng) {
+    use crate::gen::hostile::Asm;
+    let via_ttl = rng.chance(1, 2);
+    let c = *rng.pick(b"abcxyz");
+    let mut a = Asm::header(rng.u16(), 0x8180, 1, 2, 0, 0);
+    a.label(b"q").root().u16(1).u16(1);
+    // first answer: q. A, with TTL or address bytes that read as the name "<c>."
+    a.ptr(12).u16(T_A).u16(1);
+    let ttl_at = a.pos();
+    if via_ttl {
+        a.raw(&[1, c, 0, rng.u8()]);
+    } else {
+        a.u32(rng.u32());
+    }
+    a.u16(4);
+    let rd_at = a.pos();
+    if via_ttl {
+        a.raw(&[192, 0, 2, rng.u8()]);
+    } else {
+        a.raw(&[1, c, 0, rng.u8()]);
+    }
+    // second answer: owner written as a pointer into those bytes
+    a.ptr(if via_ttl { ttl_at } else { rd_at }).rrfix(T_A, 7, 4).raw(&[10, 0, 0, 1]);
+    let x = a.done();
+    let model0 = match refparse(&x, STRICT) {
+        Ok(d) => d.msg,
+        Err(_) => {
+            ctx.count("harness_error");
+            ctx.notes.push(format!("harness: rdata-alias packet is not well-formed: {}", short(&x)));
+            return;
+        }
+    };
+    let mut pp = match lib_parse(&x) {
+        Ok(Ok(pp)) => pp,
+        _ => return,
+    };
+    ctx.evaluations += 1;
+    ctx.count("rdata_alias_cases");
+    let name = if via_ttl { "set_rr_ttl" } else { "set_rr_ip" };
+    let mut model = model0.clone();
+    let new_ttl = rng.u32();
+    let new_ip = [rng.u8(), rng.u8(), rng.u8(), rng.u8()];
+    if via_ttl {
+        model.sec[0][0].ttl = new_ttl;
+    } else {
+        model.sec[0][0].rdata = RData::A(new_ip);
+    }
+    let r = guarded(u64::MAX / 2, || {
+        {
+            let mut it = pp.into_iter_answer().expect("first answer");
+            if via_ttl {
+                it.set_rr_ttl(new_ttl);
+            } else {
+                it.set_rr_ip(&std::net::IpAddr::V4(std::net::Ipv4Addr::from(new_ip))).expect("set_rr_ip on an A record");
+            }
+        }
+        match check_view(&pp) {
+            Err(fd) => Some(fd.detail),
+            Ok(d) => d.msg.diff(&model, false, false),
+        }
+    });
+    ctx.cover(&format!("rdata-alias|{}", name));
+    match r {
+        Ok(None) => ctx.count("rdata_alias_consistent"),
+        Ok(Some(detail)) => {
+            if want != Prop::C10 {
+                ctx.violation(want.id(), format!("rdata-alias|{}", name), format!("{} on a record whose {} bytes a later name points into: {}", name, if via_ttl { "TTL" } else { "address" }, detail), &x);
+            }
+        }
+        Err(p) => {
+            if want != Prop::C10 {
+                ctx.violation(want.id(), format!("rdata-alias|{}", name), format!("{}: panic {}", name, p.msg), &x);
+            }
+        }
+    }
+}
+
+pub fn drive_rdata_alias(ctx: &mut Ctx, want: Prop, n: u64) {
+    for case in ctx.phase("rdata-alias", n) {
+        ctx.begin_case(case);
+        let mut rng = Rng::for_case(ctx.seed, "rdata-alias", 0, case);
+        rdata_alias_case(ctx, want, &mut rng);
     }
 }
 
